@@ -241,6 +241,13 @@ func Main(id, tier string) int {
 		"technique":                     c.Technique,
 		"workers":                       workers(),
 	}
+	for k, v := range total.Counters {
+		if strings.Contains(k, "capped_before_bound_completed") && v > 0 {
+			// an execution cap was hit inside some case: the stated bound was not completed there
+			cov["exhaustive"] = false
+			cov["exhaustive_note"] = "every case ran, but " + k + " = " + fmt.Sprint(v) + ": those explorations stopped at their execution cap (see counters for the ones completed to the bound)"
+		}
+	}
 	if len(total.Samples) == 0 {
 		cov["samples"] = []interface{}{"(no case was run)"}
 	}
